@@ -132,8 +132,9 @@ class C15(Property):
       nn = 3 if small else len(NAMES)
       nf = 3 if small else N_STRATS
       for _ in range(n):
-        op = W.weighted("op", [(4, "strategy"), (3, "set"), (2, "sett"),
-                               (4, "del"), (2, "delattr"), (1, "call")])
+        op = W.weighted("op", [(8, "strategy"), (6, "set"), (4, "sett"),
+                               (8, "del"), (4, "delattr"), (2, "call"),
+                               (1, "setattr")])
         if op in ("strategy", "sett"):
           m = W.span("tl", 1, 3)
           ent = [op, [W.choose("n", nn) for _ in range(m)], W.choose("f", nf)]
@@ -142,7 +143,7 @@ class C15(Property):
           ops.append(ent)
         elif op == "set":
           ops.append(["set", W.choose("n", nn), W.choose("f", nf)])
-        elif op in ("del", "delattr"):
+        elif op in ("del", "delattr", "setattr"):
           ops.append([op, W.choose("n", nn)])
         else:
           ops.append(["call", W.choose("a", 3)])
@@ -168,6 +169,8 @@ class C15(Property):
                              ["del", 0], ["set", 3, 2], ["call", 0]]},
       {"kind": "sd", "ops": [["set", 0, 0], ["set", 1, 3], ["del", 0],
                              ["delattr", 1], ["set", 2, 1], ["call", 2]]},
+      {"kind": "sd", "ops": [["set", 0, 0], ["setattr", 0], ["set", 0, 1],
+                             ["setattr", 0], ["del", 0], ["set", 0, 2]]},
       {"kind": "sd", "ops": [["sett", [0, 1], 0], ["set", 0, 1], ["del", 1],
                              ["set", 1, 5], ["delattr", 0], ["set", 0, 6]]},
     ]
@@ -234,6 +237,8 @@ class C15(Property):
           out.append("del sd[%r]" % NAMES[op[1]])
         elif op[0] == "delattr":
           out.append("del sd.%s" % NAMES[op[1]])
+        elif op[0] == "setattr":
+          out.append("sd.%s = <junk>" % NAMES[op[1]])
         else:
           out.append("sd(*range(%d))" % op[1])
     return out
@@ -370,6 +375,7 @@ class C15(Property):
     m = StrategyModel()
     strats = make_strats()
     mutating = 0
+    self.dirty = set()     # names whose attribute was overwritten by hand
     self._observe_sd(sd, m, "init")
     for op in ops:
       name = op[0]
@@ -393,6 +399,8 @@ class C15(Property):
           raise _Mismatch("unexpected-exception", "setitem",
                           "sd[%r] = %r raised %r" % (names, f, exc))
         probes |= m.s_assign(names, f)
+        for nm in (names if isinstance(names, tuple) else (names,)):
+          self.dirty.discard(nm)      # assignment sets the attribute again
         mutating += 1
       elif name == "del":
         nm = NAMES[op[1]]
@@ -426,6 +434,17 @@ class C15(Property):
           raise _Mismatch("model-mismatch", "delattr",
                           "del sd.%s created an item" % nm)
         mutating += 1
+      elif name == "setattr":
+        # the user overwrites an attribute by hand: until the name is
+        # assigned again nothing is promised about that attribute
+        nm = NAMES[op[1]]
+        try:
+          setattr(sd, nm, ("junk", nm))
+        except Exception as exc:
+          raise _Mismatch("unexpected-exception", "setattr",
+                          "sd.%s = junk raised %r" % (nm, exc))
+        self.dirty.add(nm)
+        probes.add("attribute-overwritten-by-hand")
       elif name == "call":
         if m.default is not m.NO_DEFAULT:
           args = tuple(range(op[1]))
@@ -449,7 +468,8 @@ class C15(Property):
                          "sd[%r] after %s" % (nm, after))
       self._same_outcome(lambda: sd.key2keys(nm), lambda: m.key2keys(nm),
                          "key2keys", "key2keys(%r) after %s" % (nm, after))
-      if any(nm == k for k in m.all_keys()):
+      if any(nm == k for k in m.all_keys()) and \
+         nm not in getattr(self, "dirty", ()):
         try:
           attr = getattr(sd, nm)
         except AttributeError:
